@@ -1,6 +1,7 @@
 import PebblesVerif.Basic.J
 import PebblesVerif.Basic.Ast
 import PebblesVerif.Model.Point
+import PebblesVerif.Gen.FindSelection
 /-!
 Model of the result-tree operations of the executor (executor/utils.go: mergeMaps, mergeSlices;
 executor/result.go: ExtractValueModifyingSource, FindInsertionPoints, extractID;
@@ -108,20 +109,86 @@ def displayName : Sel → String
   | _ => ""
 
 mutual
-  /-- `FindSelection`: depth-first search by response name over the whole selection set -/
-  def findSelection (name : String) : List Sel → Option Sel
+  /-- `FindSelection` before the repair: depth-first (pre-order) search by response name over the
+      whole selection set — a deeper, earlier field with the same response name wins -/
+  def findSelectionDF (name : String) : List Sel → Option Sel
     | [] => none
     | s :: rest =>
-      match findSelectionSel name s with
+      match findSelectionDFSel name s with
       | some f => some f
-      | none => findSelection name rest
-  def findSelectionSel (name : String) : Sel → Option Sel
+      | none => findSelectionDF name rest
+  def findSelectionDFSel (name : String) : Sel → Option Sel
     | .field a n args dirs t ad sub =>
       if (if a != "" then a else n) == name then some (.field a n args dirs t ad sub)
-      else findSelection name sub
-    | .inline _ _ _ _ sub => findSelection name sub
+      else findSelectionDF name sub
+    | .inline _ _ _ _ sub => findSelectionDF name sub
     | .spread .. => none
 end
+
+mutual
+  /-- first loop of `FindSelection`: the fields of THIS level (`common.SelectionSetToFields`:
+      inline fragments expanded in place, spreads ignored), by response name -/
+  def findLevel (name : String) : List Sel → Option Sel
+    | [] => none
+    | s :: rest =>
+      match findLevelSel name s with
+      | some f => some f
+      | none => findLevel name rest
+  def findLevelSel (name : String) : Sel → Option Sel
+    | .field a n args dirs t ad sub =>
+      if (if a != "" then a else n) == name then some (.field a n args dirs t ad sub) else none
+    | .inline _ _ _ _ sub => findLevel name sub
+    | .spread .. => none
+end
+
+mutual
+  /-- second loop of `FindSelection`: below each field of this level, in order — again level first -/
+  def findDeep (name : String) : List Sel → Option Sel
+    | [] => none
+    | s :: rest =>
+      match findDeepSel name s with
+      | some f => some f
+      | none => findDeep name rest
+  def findDeepSel (name : String) : Sel → Option Sel
+    | .field _ _ _ _ _ _ sub =>
+      match findLevel name sub with
+      | some f => some f
+      | none => findDeep name sub
+    | .inline _ _ _ _ sub => findDeep name sub
+    | .spread .. => none
+end
+
+/-- `FindSelection` after the repair: a field of this level wins over a deeper one -/
+def findSelectionLF (name : String) (ss : List Sel) : Option Sel :=
+  match findLevel name ss with
+  | some f => some f
+  | none => findDeep name ss
+
+/-- `executor.FindSelection`; which of the two searches the code performs is a regenerated fact -/
+def findSelection (name : String) (ss : List Sel) : Option Sel :=
+  if Gen.FindSelection.levelFirst then findSelectionLF name ss else findSelectionDF name ss
+
+/-- the search finds a field standing first at the current level under its own response name
+    (either shape of the code) -/
+theorem findSelection_head (a n : String) (args : List Arg) (dirs : List Dir) (t : TypeRef) (ad : List ArgDef)
+    (sub rest : List Sel) (name : String) (h : (if a != "" then a else n) = name) :
+    findSelection name (.field a n args dirs t ad sub :: rest) = some (.field a n args dirs t ad sub) := by
+  subst h
+  unfold findSelection
+  split
+  · simp [findSelectionLF, findLevel, findLevelSel]
+  · simp [findSelectionDF, findSelectionDFSel]
+
+/-- a leaf field (no sub-selection) with another response name is passed over (either shape) -/
+theorem findSelection_skip_leaf (a n : String) (args : List Arg) (dirs : List Dir) (t : TypeRef) (ad : List ArgDef)
+    (rest : List Sel) (name : String) (h : ((if a != "" then a else n) == name) = false) :
+    findSelection name (.field a n args dirs t ad [] :: rest) = findSelection name rest := by
+  unfold findSelection
+  split
+  · simp only [findSelectionLF, findLevel, findLevelSel, h, findDeep, findDeepSel]
+    simp
+  · simp only [findSelectionDF, findSelectionDFSel, h]
+    simp
 
 def selType : Sel → TypeRef
   | .field _ _ _ _ t _ _ => t
